@@ -120,6 +120,9 @@ def stress_docs():
     # JSON-RPC ids built from method name and path: a space in either makes two ids collide
     res.append('JSIGHT 0.3\nURL "/x /y"\n  Protocol json-rpc-2.0\n  Method "a"\n    Result\n    {}\nURL /y\n  Protocol json-rpc-2.0\n  Method "a /x"\n    Result\n    {}\n')
     res.append('JSIGHT 0.3\nURL "/p q"\n  GET\n    200 any\nGET "/p q"\n  200 any\n')
+    # paths that differ only in empty segments are different strings: different ids, or one of them refused - never one key twice
+    res.append('JSIGHT 0.3\nURL /pets/list\n  GET\n    200 any\nGET /pets//list\n  200 any\nGET /pets/list/\n  200 any\nGET //pets/list\n  200 any\n')
+    res.append('JSIGHT 0.3\nURL /r//pc\n  Protocol json-rpc-2.0\n  Method m\n    Result\n    {}\nURL /r/pc\n  Protocol json-rpc-2.0\n  Method m\n    Result\n    {}\n')
     # two paths (type names, tag names) that differ only in a byte that is not valid UTF-8: JSON cannot carry the byte,
     # both become U+FFFD ("\xff" in these texts stands for the byte: the file is written in Latin-1)
     res.append('JSIGHT 0.3\nGET /a\xff\n  200 any\nGET /a\xfe\n  200 any\n')
